@@ -33,7 +33,7 @@ def run(ctx, res):
     la = LockAnalysis(prog)
     res.extra["explanation"] = EXPLANATION
     res.assumptions += [
-        "pthread_cond_wait atomically releases the mutex (platform primitive trusted)",
+        "pthread_cond_wait atomically releases the mutex (the pthread primitive is trusted; the wrappers in linux/platform.c are checked by R-PLATFORM)",
         "the HAL calls get_frame only on a started camera and serialises start/stop/get_frame of one camera (C11)",
         "stores in the start slot that precede thread_create happen before any waiter exists",
     ]
@@ -366,6 +366,9 @@ def run(ctx, res):
             res.fail("R-RESTART", inst, "R-RESTART|%s|%s" % (f_start.name, field), f_start.loc(),
                      "%s can create the streamer thread without resetting %s: ids continue from the previous run" % (f_start.name, field),
                      {"path_blocks": w})
+    from .. import platformrules as PR
+    PR.run_all(prog, la, res, event=False)   # "stop always returns": thread_join and the lock / cv wrappers
+    res.require_min("R-PLATFORM", 13)
     res.require_min("L-PAIR", 10)
     res.require_min("L-CV", 8)
     res.require_min("L-RECHECK", 2)
